@@ -516,9 +516,10 @@ func (p *parser) power(lhs ast.Expression) ast.Expression {
 			expr := p.unary()
 
 			lhs = &ast.BinaryExpr{
+				// the degree is written before the radicand
 				Range: token.Range{
-					Start: expr.GetRange().Start,
-					End:   lhs.GetRange().End,
+					Start: lhs.GetRange().Start,
+					End:   expr.GetRange().End,
 				},
 				Tok:      *tok,
 				Lhs:      expr,
